@@ -144,7 +144,16 @@ func init() {
 						d = append(d, fmt.Sprintf("different errors: %q vs %q", a.Err, b.Err))
 					}
 				} else {
-					if x, y := a.Remaining, mapToks(b.Remaining, m); !eqStrs(x, y) {
+					// the verbatim text of rewritten unknown tokens differs; tokens behind `--` are never rewritten
+					nTail := 0
+					if s.Term {
+						nTail = len(s.Tail)
+					}
+					y := append([]string{}, b.Remaining...)
+					if len(y) >= nTail {
+						copy(y, mapToks(y[:len(y)-nTail], m))
+					}
+					if x := a.Remaining; !eqStrs(x, y) {
 						d = append(d, fmt.Sprintf("remaining %q vs %q", a.Remaining, b.Remaining))
 					}
 					if x, y := optState(a), optState(b); !eqStrs(x, y) {
